@@ -15,6 +15,7 @@ Generated:
   coq/Gen/Wiring.v   hand-overs of configured limits by position / field name (translator/wiring.py)
   coq/Gen/PoolOrder.v statement order of the pool's acquire / drop / batch release (translator/poolorder.py)
   coq/Gen/LockLint.v sharded-map accesses whose guard is alive across an await (translator/locklint.py)
+  coq/Gen/Headroom.v message-pool sizing and the write arm's buffer discipline (translator/headroom.py)
   harness/src/gen_schema.rs  Message <-> generic value conversions used by the codec driver
 """
 import os
@@ -534,6 +535,7 @@ def write_if_changed(path, content):
 
 
 def main():
+    warnings = []
     try:
         ms = parse_message_rs()
         er = parse_error_rs()
@@ -543,32 +545,64 @@ def main():
             os.path.join(VERIF, "coq/Gen/Consts.v"): gen_consts(),
             os.path.join(VERIF, "harness/src/gen_schema.rs"): gen_rust(ms),
         }
+        # Sub-translators: a source shape one of them does not know must not take the other properties down with it.  The
+        # generated file then carries the message and values that fail exactly the theorems pinned on it (the check of the
+        # property concerned reports them as no longer proved and searches for a failing input).
+        def q(msg):
+            return '"' + str(msg).replace('"', "'").replace("*)", "* )").replace("(*", "( *") + '"'
         import dispatch
         try:
             files[os.path.join(VERIF, "coq/Gen/Dispatch.v")] = dispatch.gen(read, ms["names"])
         except dispatch.Shape as e:
-            raise Shape(str(e))
+            warnings.append(str(e))
+            files[os.path.join(VERIF, "coq/Gen/Dispatch.v")] = "\n".join(
+                ["(* GENERATED by translator/dispatch.py — TRANSLATOR-SHAPE-ERROR, see dispatch_shape_error *)",
+                 "From Coq Require Import String List.", "Import ListNotations.", "Local Open Scope string_scope.",
+                 "Definition dispatch_shape_error : string := %s." % q(e)] +
+                ["Definition %s_accepts : list string := []." % k for k in ("c2s_connecting", "c2s_connected", "c2s_authenticated", "s2m_connecting", "s2m_authenticated", "m2s_connecting", "m2s_authenticated")]) + "\n"
         import wiring
         try:
             files[os.path.join(VERIF, "coq/Gen/Wiring.v")] = wiring.gen(read)
         except wiring.Shape as e:
-            raise Shape(str(e))
+            warnings.append(str(e))
+            files[os.path.join(VERIF, "coq/Gen/Wiring.v")] = "\n".join(
+                ["(* GENERATED by translator/wiring.py — TRANSLATOR-SHAPE-ERROR *)", "From Coq Require Import String List NArith.", "Import ListNotations.",
+                 "Local Open Scope string_scope.", "Definition wiring_sites : N := 0%N.",
+                 "Definition wiring_mismatches : list string := [%s]." % q("TRANSLATOR-SHAPE-ERROR: %s" % e), ""])
         import poolorder
         try:
             files[os.path.join(VERIF, "coq/Gen/PoolOrder.v")] = poolorder.gen(read)
         except poolorder.Shape as e:
-            raise Shape(str(e))
+            warnings.append(str(e))
+            files[os.path.join(VERIF, "coq/Gen/PoolOrder.v")] = "\n".join(
+                ["(* GENERATED by translator/poolorder.py — TRANSLATOR-SHAPE-ERROR: %s *)" % q(e),
+                 "Definition acquire_permit_before_pop : bool := false.", "Definition drop_push_before_permit : bool := false.",
+                 "Definition release_push_then_one_permit_each : bool := false.", ""])
         import locklint
         try:
             files[os.path.join(VERIF, "coq/Gen/LockLint.v")] = locklint.gen(REPO)
         except locklint.Shape as e:
-            raise Shape("lock lint: %s" % e)
+            warnings.append("lock lint: %s" % e)
+            files[os.path.join(VERIF, "coq/Gen/LockLint.v")] = "\n".join(
+                ["(* GENERATED by translator/locklint.py — TRANSLATOR-SHAPE-ERROR *)", "From Coq Require Import String List NArith.", "Import ListNotations.",
+                 "Local Open Scope string_scope.", "Definition map_access_sites : N := 0%N.",
+                 "Definition guard_across_await : list string := [%s]." % q("TRANSLATOR-SHAPE-ERROR: %s" % e),
+                 "Definition chan_lock_sites : N := 0%N.",
+                 "Definition chan_lock_nested : list string := [%s]." % q("TRANSLATOR-SHAPE-ERROR: %s" % e), ""])
+        import headroom
+        try:
+            files[os.path.join(VERIF, "coq/Gen/Headroom.v")] = headroom.gen(read)
+        except headroom.Shape as e:
+            warnings.append(str(e))
+            files[os.path.join(VERIF, "coq/Gen/Headroom.v")] = headroom.fallback("TRANSLATOR-SHAPE-ERROR: %s" % e)
     except Shape as e:
         print(f"TRANSLATOR-SHAPE-ERROR: {e}")
         return 3
     changed = [p for p, c in files.items() if write_if_changed(p, c)]
     for p in changed:
         print("regenerated", os.path.relpath(p, VERIF))
+    for w in warnings:
+        print("TRANSLATOR-SHAPE-WARNING (the generated file fails the theorems pinned on it):", w)
     return 0
 
 
